@@ -382,6 +382,41 @@ Definition activity (s : st) (l : label) : bool :=
 
 
 (* ------------------------------------------------------------------ *)
+(* Acceptor for observed sequential API histories (harness/cmd/c15): each call runs to
+   completion before the next.  Before the first Close calls succeed; afterwards they are
+   refused as late_calls_refused / registration_returns_when_closing say (fx = true):
+   SyncAdChain "shutdown", Announce ErrClosed, OnSyncFinished an already closed channel,
+   the cancel func and Close return nil. *)
+Inductive call := CallClose | CallSync | CallAnnounce | CallListen | CallCancel.
+Inductive outcome := ONil | OOk | OShutdown | OErrClosed | OOpenChan | OClosedChan | OBlocked | OOther.
+
+Definition outcome_eqb (a b : outcome) : bool :=
+  match a, b with
+  | ONil, ONil | OOk, OOk | OShutdown, OShutdown | OErrClosed, OErrClosed | OOpenChan, OOpenChan
+  | OClosedChan, OClosedChan | OBlocked, OBlocked | OOther, OOther => true
+  | _, _ => false
+  end.
+
+Definition expected_outcome (closed : bool) (c : call) : outcome :=
+  match c with
+  | CallClose => ONil
+  | CallSync => if closed then OShutdown else OOk
+  | CallAnnounce => if closed then OErrClosed else ONil
+  | CallListen => if closed then OClosedChan else OOpenChan
+  | CallCancel => ONil
+  end.
+
+Fixpoint seq_ok (closed : bool) (h : list (call * outcome)) : bool :=
+  match h with
+  | [] => true
+  | (c, o) :: r =>
+    outcome_eqb o (expected_outcome closed c) &&
+    seq_ok (closed || match c with CallClose => true | _ => false end) r
+  end.
+
+Definition seq_case_ok (h : list (call * outcome)) : bool := seq_ok false h.
+
+(* ------------------------------------------------------------------ *)
 (* The skeletons this model (fx = true) was written against            *)
 Open Scope string_scope.
 
